@@ -28,10 +28,17 @@ Fixpoint quietb (m : mach) : bool :=
   | MClosure up inner plus slot seen stks drained =>
     quietb up && quietb inner && is_none slot && is_nil seen && is_nil stks && drained
   | MApply up skip sub => quietb up && is_none sub
-  | MFormat _ _ _ _ => false
+  | MFormat up parts oslot _ =>
+    (* the position counter is set back when the next stack arrives: any value *)
+    quietb up && (fix all (l : list part) : bool :=
+                    match l with
+                    | [] => true
+                    | PLit _ :: t => all t
+                    | POp inner slot cur :: t => quietb inner && is_none slot && is_none cur && all t
+                    end) parts && is_none oslot
   end.
 
-(* does the chain contain the op of format strings (outside the theorem)? *)
+(* does the chain contain the op of format strings (then `pulled dry = as constructed` holds up to its position counter)? *)
 Fixpoint has_format (m : mach) : bool :=
   match m with
   | MLeaf => false
